@@ -33,7 +33,7 @@ Device *g_dev = &g_naive;
 
 std::vector<std::unique_ptr<Parameter>> g_params;
 std::vector<std::unique_ptr<Optimizer>> g_opts;
-struct Ckpt { std::vector<std::string> paths; };
+struct Ckpt { std::vector<std::string> paths; std::vector<Shape> shapes; };
 std::map<std::string, Ckpt> g_ckpts;
 std::string g_tmp;
 std::vector<std::string> g_files;
@@ -304,6 +304,7 @@ std::string exec(const std::vector<std::string> &w) {
     }
     for (Parameter *p : sel) if (!p->valid()) return "err";
     for (std::size_t i = 0; i < sel.size(); ++i) t.add(c.paths[i], *sel[i]);
+    for (Parameter *p : sel) c.shapes.push_back(p->shape());
     const std::string base = tmpdir() + "/" + w[2];
     g_files.push_back(base + ".opt");
     g_files.push_back(base + ".model");
@@ -317,18 +318,36 @@ std::string exec(const std::vector<std::string> &w) {
     if (it == g_ckpts.end()) throw BadOp();
     const Ckpt &c = it->second;
     if (vh::to_u64(w[2]) != g_opts.size()) throw BadOp();
-    Device &dev = device_of(w[4]);
+    // "<device>+addfirst": the other common resume order — the fresh model is built with valid
+    // (zero) parameters, registered with the fresh optimizer first (which creates zero
+    // statistics), and only then loaded
+    std::string devname = w[4];
+    bool addfirst = false;
+    if (devname.size() > 9 && devname.compare(devname.size() - 9, 9, "+addfirst") == 0) {
+      addfirst = true;
+      devname = devname.substr(0, devname.size() - 9);
+    }
+    Device &dev = device_of(devname);
     if (n - 5 != c.paths.size()) throw BadOp();
     for (std::size_t i = 5; i < n; ++i) if (vh::to_u64(w[i]) != g_params.size() + (i - 5)) throw BadOp();
     std::unique_ptr<Optimizer> o = make(w[3], {});
     // fresh objects exist from here on, whatever happens below
     const std::size_t first = g_params.size();
-    for (std::size_t i = 0; i < c.paths.size(); ++i) g_params.emplace_back(new Parameter());
+    for (std::size_t i = 0; i < c.paths.size(); ++i) {
+      if (addfirst) g_params.emplace_back(new Parameter(c.shapes[i], std::vector<float>(c.shapes[i].size(), 0.0f), dev));
+      else g_params.emplace_back(new Parameter());
+    }
     g_opts.push_back(std::move(o));
     Optimizer &opt = *g_opts.back();
     Tree t;
     for (std::size_t i = 0; i < c.paths.size(); ++i) t.add(c.paths[i], *g_params[first + i]);
     const std::string base = tmpdir() + "/" + w[1];
+    if (addfirst) {
+      opt.add(t.root);
+      t.root.load(base + ".model", true, dev);
+      opt.load(base + ".opt");
+      return "ok";
+    }
     opt.load(base + ".opt");
     t.root.load(base + ".model", true, dev);
     opt.add(t.root);
